@@ -1,0 +1,102 @@
+//go:build verif
+
+// Contracts for contract-based deductive verification with govc (see /verif/DESIGN.md).
+// This file is comment-only: it adds no code and is compiled only with the build tag "verif".
+// One clause per //@ line (continued while parentheses are open).  Vocabulary: the spec functions
+// generated from /verif/spec/v40.spec and the representation declared below (field40, midx40,
+// vcode40, vstr40, wf40, ...), plus /verif/spec/common.smt2 and /verif/spec/v40.smt2.
+
+package gocvss40
+
+//@ repr CVSS40
+//@ bytes 9
+//@ field AV  u0[7:6] codes N A L P
+//@ field AC  u0[5:5] codes H L
+//@ field AT  u0[4:4] codes N P
+//@ field PR  u0[3:2] codes H L N
+//@ field UI  u0[1:0] codes N P A
+//@ field VC  u1[7:6] codes H L N
+//@ field SC  u1[5:4] codes H L N
+//@ field VI  u1[3:2] codes H L N
+//@ field SI  u1[1:0] codes H L N
+//@ field VA  u2[7:6] codes H L N
+//@ field SA  u2[5:4] codes H L N
+//@ field E   u2[3:2] codes X A P U
+//@ field CR  u2[1:0] codes X H M L
+//@ field IR  u3[7:6] codes X H M L
+//@ field AR  u3[5:4] codes X H M L
+//@ field MAV u3[3:1] codes X N A L P
+//@ field MAC u3[0:0]+u4[7:7] codes X H L
+//@ field MAT u4[6:5] codes X N P
+//@ field MPR u4[4:3] codes X H L N
+//@ field MUI u4[2:1] codes X N P A
+//@ field MVC u4[0:0]+u5[7:7] codes X H L N
+//@ field MVI u5[6:5] codes X H L N
+//@ field MVA u5[4:3] codes X H L N
+//@ field MSC u5[2:1] codes X H L N
+//@ field MSI u5[0:0]+u6[7:6] codes X H L N S
+//@ field MSA u6[5:3] codes X H L N S
+//@ field S   u6[2:1] codes X N P
+//@ field AU  u6[0:0]+u7[7:7] codes X N Y
+//@ field R   u7[6:5] codes X A U I
+//@ field V   u7[4:3] codes X D C
+//@ field RE  u7[2:1] codes X L M H
+//@ field U   u7[0:0]+u8[7:6] codes X Clear Green Amber Red
+//@ unused u8[5:0]
+
+// ---- Set / Get / validate (C07, C09, C06, C18) ----
+
+//@ func (*CVSS40).Set(cvss40, abv, value)
+//@   requires[wf] (wf40 cvss40)
+//@   inline validate
+//@   modifies cvss40
+//@   ensures[ok_iff_legal] (= (isnil result) (and (>= (midx40 abv) 0) (not (= (vcode40 (midx40 abv) value) #xff))))
+//@   ensures[sets_metric] (=> (isnil result) (= (field40 cvss40 (midx40 abv)) (vcode40 (midx40 abv) value)))
+//@   ensures[frame_other_metrics] (forall-in (m 0 31) (=> (not (and (isnil result) (= m (midx40 abv)))) (= (field40 cvss40 m) (field40 (old cvss40) m))))
+//@   ensures[fail_unchanged] (=> (not (isnil result)) (= cvss40 (old cvss40)))
+//@   ensures[wf_preserved] (wf40 cvss40)
+//@   ensures[err_unknown_metric] (=> (< (midx40 abv) 0) (and (is-ErrInvalidMetric result) (str= (pabv result) abv)))
+//@   ensures[err_illegal_value] (=> (and (>= (midx40 abv) 0) (= (vcode40 (midx40 abv) value) #xff)) (= result ErrInvalidMetricValue))
+//@   allocs 0
+
+//@ func (CVSS40).Get(cvss40, abv)
+//@   requires[wf] (wf40 cvss40)
+//@   ensures[known_metric_value] (=> (>= (midx40 abv) 0) (and (isnil result.1) (= (vcode40 (midx40 abv) result.0) (field40 cvss40 (midx40 abv))) (not (= (vcode40 (midx40 abv) result.0) #xff))))
+//@   ensures[nonempty] (=> (>= (midx40 abv) 0) (> (len result.0) 0))
+//@   ensures[unknown_metric] (=> (< (midx40 abv) 0) (and (is-ErrInvalidMetric result.1) (str= (pabv result.1) abv) (= (len result.0) 0)))
+
+//@ func validate(value, enabled)
+//@   requires[short_list] (<= (len enabled) 255)
+//@   loop 1 invariant[bounds] (and (<= (- 1) rangeindex) (< rangeindex (len enabled)) (= (bv2nat i) (+ rangeindex 1)))
+//@   loop 1 invariant[none_before] (forall ((k Int)) (! (=> (and (<= 0 k) (<= k rangeindex)) (not (streq value (at enabled k)))) :pattern ((at enabled k))))
+//@   loop 1 decreases (- (len enabled) rangeindex)
+//@   ensures[found_first] (=> (isnil result.1) (and (< (bv2nat result.0) (len enabled)) (streq value (at enabled (bv2nat result.0))) (forall ((k Int)) (! (=> (and (<= 0 k) (< k (bv2nat result.0))) (not (streq value (at enabled k)))) :pattern ((at enabled k))))))
+//@   ensures[not_found] (=> (not (isnil result.1)) (and (= result.1 ErrInvalidMetricValue) (= result.0 #x00) (forall ((k Int)) (! (=> (and (<= 0 k) (< k (len enabled))) (not (streq value (at enabled k)))) :pattern ((at enabled k))))))
+
+//@ func (CVSS40).get(cvss40, abv)
+//@   requires[wf] (wf40 cvss40)
+//@   inline Get
+//@   ensures[value] (=> (>= (midx40 abv) 0) (and (= (vcode40 (midx40 abv) result) (field40 cvss40 (midx40 abv))) (not (= (vcode40 (midx40 abv) result) #xff)) (> (len result) 0)))
+
+//@ func mod(base, modified) pure
+
+// ---- Rating (C15) ----
+
+//@ func Rating(score)
+//@   requires[not_nan] (not (fp.isNaN score))
+//@   ensures[none]     (=> (= (ratingClass score) 0) (and (isnil result.1) (str= result.0 "NONE")))
+//@   ensures[low]      (=> (= (ratingClass score) 1) (and (isnil result.1) (str= result.0 "LOW")))
+//@   ensures[medium]   (=> (= (ratingClass score) 2) (and (isnil result.1) (str= result.0 "MEDIUM")))
+//@   ensures[high]     (=> (= (ratingClass score) 3) (and (isnil result.1) (str= result.0 "HIGH")))
+//@   ensures[critical] (=> (= (ratingClass score) 4) (and (isnil result.1) (str= result.0 "CRITICAL")))
+//@   ensures[out_of_bounds] (=> (= (ratingClass score) (- 1)) (and (= result.1 ErrOutOfBoundsScore) (= (len result.0) 0)))
+//@   allocs 0
+
+// ---- Nomenclature (C16) ----
+
+//@ func (CVSS40).Nomenclature(cvss40)
+//@   ensures[b]   (= (str= result "CVSS-B")   (and (not (threatDefined40 cvss40)) (not (envDefined40 cvss40))))
+//@   ensures[bt]  (= (str= result "CVSS-BT")  (and (threatDefined40 cvss40) (not (envDefined40 cvss40))))
+//@   ensures[be]  (= (str= result "CVSS-BE")  (and (not (threatDefined40 cvss40)) (envDefined40 cvss40)))
+//@   ensures[bte] (= (str= result "CVSS-BTE") (and (threatDefined40 cvss40) (envDefined40 cvss40)))
+//@   allocs 0
